@@ -204,8 +204,17 @@ func VerifShardedDir() {
 	probe := &hEntry{hash: verifrt.Bytes(8)}
 	// unrelated, or related to an entry's name as proper suffix / proper prefix /
 	// extension (its hash is arbitrary, so it may be routed to that entry's bucket)
-	variant := verifrt.Choose(4)
-	if verifrt.Native() {
+	variant := verifrt.Choose(5)
+	if variant == 4 {
+		// the empty key: never a member; its real murmur3 hash is 0 (bucket 0 at every level)
+		probe.name = ""
+		for i := range probe.hash {
+			verifrt.Assume(probe.hash[i] == 0)
+		}
+		if !verifrt.Native() {
+			tab.Set("", probe.hash)
+		}
+	} else if verifrt.Native() {
 		if variant == 0 {
 			probe.name = verifmodel.FindName(99, probe.hash, maxDepth*lg)
 		} else {
